@@ -1,5 +1,4 @@
 package main
 
-func genMetricSites()   {}
-func genHandlerGuards() {}
-func genLockTable()     {}
+func genMetricSites() {}
+func genLockTable()   {}
